@@ -58,10 +58,14 @@ def _minus(dom, sub):
     return out
 
 
-def piecewise(fn, is_x_place, lo, hi, max_steps=200000, resolve=None, _depth=0):
+def piecewise(fn, is_x_place, lo, hi, max_steps=200000, resolve=None, _depth=0, start=0, stop=None, observe=0, env0=None, models=None, fork_unknown=False):
+    """models: {regex: [(lo, hi), ...]} - std predicates on x (by value or by reference) and their true-sets.
+    start/stop/observe: evaluate only the region from block `start` until a block in `stop` is entered and report the value of local `observe`
+    there (None if never assigned in the region).  fork_unknown: a switch on a value that does not depend on x is followed on all edges."""
     out = []
     sub_cache = {}
-    work = [(0, 0, [(lo, hi)], {})]   # block, stmt index, domain, env
+    stop = set(stop or ())
+    work = [(start, 0, [(lo, hi)], dict(env0 or {}))]   # block, stmt index, domain, env
     steps = 0
     while work:
         steps += 1
@@ -69,6 +73,11 @@ def piecewise(fn, is_x_place, lo, hi, max_steps=200000, resolve=None, _depth=0):
             raise Unsupported("path explosion")
         b, si0, dom, env = work.pop()
         env = dict(env)
+        if b in stop and si0 == 0 and not (b == start and steps == 1):
+            r = env.get(observe)
+            for a_, b_ in dom:
+                out.append((a_, b_, r if isinstance(r, int) else None))
+            continue
 
         def val(op):
             if "p" in op:
@@ -77,6 +86,13 @@ def piecewise(fn, is_x_place, lo, hi, max_steps=200000, resolve=None, _depth=0):
                     return ("x",)
                 if len(p) == 1:
                     return env.get(p[0])
+                if len(p) == 2 and p[1] == "*":
+                    v0 = env.get(p[0])
+                    if v0 == ("xref",):
+                        return ("x",)
+                    if isinstance(v0, tuple) and v0 and v0[0] in ("range", "xref2"):
+                        return v0 if v0[0] == "range" else ("xref",)
+                    return None
                 if len(p) == 2 and p[1] in (".0", ".1") and isinstance(env.get(p[0]), tuple) and env[p[0]][0] == "pair":
                     return env[p[0]][1] if p[1] == ".0" else 0
                 return None
@@ -111,6 +127,14 @@ def piecewise(fn, is_x_place, lo, hi, max_steps=200000, resolve=None, _depth=0):
                     fork_on(v, cont)
                     forked = True
                     break
+            elif k == "ref":
+                pv = val({"p": rv[2]})
+                if pv == ("x",):
+                    v = ("xref",)
+                elif pv == ("xref",):
+                    v = ("xref2",)
+                elif isinstance(pv, tuple) and pv and pv[0] == "range":
+                    v = pv
             elif k == "un" and rv[1] == "Not":
                 a = val(rv[2])
                 if isinstance(a, int):
@@ -132,6 +156,8 @@ def piecewise(fn, is_x_place, lo, hi, max_steps=200000, resolve=None, _depth=0):
                     r = {"Add": a + c, "Sub": a - c, "Mul": a * c}.get(base)
                     if r is not None:
                         v = ("pair", r) if op.endswith("WithOverflow") else r
+            if v is None and env0 and pl[0] in env0:
+                v = env0[pl[0]]
             env[pl[0]] = v
         if forked:
             continue
@@ -170,6 +196,9 @@ def piecewise(fn, is_x_place, lo, hi, max_steps=200000, resolve=None, _depth=0):
                     rest = rest2
                 if rest:
                     work.append((t[3], 0, rest, env))
+            elif fork_unknown and d is None:
+                for tgt_ in sorted({x for vv, x in t[2]} | {t[3]}):
+                    work.append((tgt_, 0, dom, env))
             else:
                 raise Unsupported("switch on unknown value in bb%d" % b)
         elif k == "call":
@@ -193,6 +222,19 @@ def piecewise(fn, is_x_place, lo, hi, max_steps=200000, resolve=None, _depth=0):
                     work.append((tgt, 0, dom, env))
                 else:
                     raise Unsupported("call %s on unknown value" % nm)
+            elif models and any(a in (("x",), ("xref",), ("xref2",)) for a in args) and any(re.search(k_, nm) for k_ in models):
+                mset = next(v_ for k_, v_ in models.items() if re.search(k_, nm))
+                rng = next((a for a in args if isinstance(a, tuple) and a and a[0] == "range"), None)
+                if mset == "range-contains":
+                    if rng is None:
+                        raise Unsupported("contains() on an unknown range")
+                    mset = [(rng[1], rng[2])]
+                tr = [(max(a_, x0), min(b_, x1)) for x0, x1 in dom for a_, b_ in mset if max(a_, x0) <= min(b_, x1)]
+                fa = _minus(dom, tr)
+                for part, bit in ((tr, 1), (fa, 0)):
+                    if part:
+                        e2 = dict(env); e2[dest[0]] = bit
+                        work.append((tgt, 0, part, e2))
             elif resolve is not None and _depth < 3 and sum(1 for a in args if a == ("x",)) == 1 and all(a == ("x",) or isinstance(a, int) for a in args) and resolve(nm) is not None:
                 g = resolve(nm)
                 k_x = [i for i, a in enumerate(args) if a == ("x",)][0] + 1
@@ -203,12 +245,15 @@ def piecewise(fn, is_x_place, lo, hi, max_steps=200000, resolve=None, _depth=0):
                     if part:
                         e2 = dict(env); e2[dest[0]] = r
                         work.append((tgt, 0, part, e2))
+            elif fork_unknown and not any(a in (("x",), ("xref",), ("xref2",)) for a in args):
+                env[dest[0]] = None
+                work.append((tgt, 0, dom, env))
             else:
                 raise Unsupported("call %s in bb%d" % (nm, b))
         else:
             raise Unsupported("terminator %s" % k)
     # merge adjacent intervals with equal value
-    out.sort()
+    out.sort(key=lambda t_: (t_[0], t_[1], -1 if t_[2] is None else t_[2]))
     merged = []
     for a, b_, v in out:
         if merged and merged[-1][2] == v and merged[-1][1] + 1 == a:
